@@ -1,6 +1,6 @@
 //! in-toto layoput metadata.
 
-use chrono::{DateTime, Duration, Utc};
+use chrono::{DateTime, Duration, Timelike, Utc};
 use serde::de::{Deserialize, Deserializer, Error as DeserializeError};
 use serde::ser::{Error as SerializeError, Serialize, Serializer};
 
@@ -128,6 +128,15 @@ impl LayoutMetadata {
         steps: Vec<Step>,
         inspect: Vec<Inspection>,
     ) -> Self {
+        // The wire format carries the expiry to the second. Keep no finer
+        // part (a leap second stays one), so that a layout equals what is
+        // read back from its own serialisation.
+        let whole = if expires.nanosecond() >= 1_000_000_000 {
+            1_000_000_000
+        } else {
+            0
+        };
+        let expires = expires.with_nanosecond(whole).unwrap_or(expires);
         LayoutMetadata {
             steps,
             inspect,
